@@ -3,6 +3,7 @@ package main
 import (
 	"go/ast"
 	"go/types"
+	"sort"
 
 	"golang.org/x/tools/go/packages"
 )
@@ -26,6 +27,7 @@ func init() {
 		Rules: []RuleDef{
 			{Name: "C11-GLOBAL", Floor: 4, Doc: "no unsynchronised package-level state is written on the request path", Run: c11Run},
 			{Name: "C11-CTX", Floor: 2, Doc: "each request entry point evaluates the handler in a context created for this request", Run: nop},
+			{Name: "C11-NODE", Floor: 70, Doc: "the AST is shared by all concurrent requests: evaluation methods write no field of the node they belong to (caches, scratch buffers, counters), apart from the listed sites of the pinned tree", Run: c11Node},
 		},
 	})
 }
@@ -210,5 +212,30 @@ func c11Run(r *Run) {
 	}
 	if n == 0 {
 		r.fail("no request entry point found in std/net/http")
+	}
+}
+
+// c11Node: no node type writes its own fields while it is evaluated (the AST is shared by every request).
+func c11Node(r *Run) {
+	r.curRule = "C11-NODE"
+	npkg := r.pkg("node")
+	if npkg == nil {
+		return
+	}
+	writes, examined := evalClosureFieldWrites(npkg)
+	bad := map[string]bool{}
+	for _, w := range writes {
+		bad[w.typeName] = true
+		r.bad("node.("+w.typeName+")#keeps-state:"+w.field, w.pos, "while it is evaluated the node writes its own field "+w.field+" ("+types.TypeString(w.ftype, func(p *types.Package) string { return p.Name() })+"): the same node is evaluated by every concurrent request, so the state is shared between requests (one request's data shows up in another's response, or a data race corrupts it)")
+	}
+	tns := []string{}
+	for tn := range examined {
+		tns = append(tns, tn)
+	}
+	sort.Strings(tns)
+	for _, tn := range tns {
+		if !bad[tn] {
+			r.ok("node.("+tn+")#stateless-under-evaluation", examined[tn], "evaluation methods write no field of the node")
+		}
 	}
 }
